@@ -23,11 +23,12 @@ type C12Case struct {
 	Workload string   `json:"workload"`
 	In       string   `json:"in"`
 	Pre      [][]byte `json:"pre"`
+	Post     [][]byte `json:"post,omitempty"` // files added after the parsed one
 	G        *Grammar `json:"g,omitempty"` // workload "grammar": a generated grammar
 }
 
 func (c *C12Case) Describe() string {
-	s := fmt.Sprintf("workload=%s input=%q preceding files=%q", c.Workload, c.In, c.Pre)
+	s := fmt.Sprintf("workload=%s input=%q preceding files=%q following files=%q", c.Workload, c.In, c.Pre, c.Post)
 	if c.G != nil {
 		s += " grammar: " + c.G.String()
 	}
@@ -121,9 +122,13 @@ func genC12(t *rapid.T) interface{} {
 		i := rapid.IntRange(0, len(c.In)-1).Draw(t, "mi")
 		c.In = c.In[:i] + c.In[i+1:]
 	}
-	k := rapid.IntRange(1, 3).Draw(t, "npre")
+	k := rapid.IntRange(1, 6).Draw(t, "npre")
 	for i := 0; i < k; i++ {
 		c.Pre = append(c.Pre, genContent(t, "p", 6))
+	}
+	k = rapid.IntRange(0, 5).Draw(t, "npost")
+	for i := 0; i < k; i++ {
+		c.Post = append(c.Post, genContent(t, "q", 6))
 	}
 	return c
 }
@@ -134,7 +139,7 @@ type c12Out struct {
 	Base                int
 }
 
-func runC12(c *C12Case, pre [][]byte) (o c12Out, err error) {
+func runC12(c *C12Case, pre, post [][]byte) (o c12Out, err error) {
 	defer func() {
 		if r := recover(); r != nil {
 			if _, ok := r.(budgetExceeded); ok {
@@ -149,6 +154,9 @@ func runC12(c *C12Case, pre [][]byte) (o c12Out, err error) {
 	}
 	f := text.NewFile("main", []byte(c.In))
 	fl = append(fl, f)
+	for i, p := range post {
+		fl = append(fl, text.NewFile(fmt.Sprintf("post%d", i), p))
+	}
 	fs := parsley.NewFileSet(fl...)
 	o.Base = int(f.Pos(0))
 	var p parsley.Parser
@@ -164,6 +172,10 @@ func runC12(c *C12Case, pre [][]byte) (o c12Out, err error) {
 	node, perr := parsley.Parse(ctx, p)
 	o.Tree = renderRel(node, o.Base)
 	o.ParseErr = fmt.Sprint(perr)
+	if node != nil {
+		// the rendered location of the root must be the same wherever the file sits
+		o.ParseErr += " root at " + fs.Position(node.Pos()).String() + " .. " + fs.Position(node.ReaderPos()).String()
+	}
 	o.Calls = ctx.CallCount()
 	if node != nil {
 		o.Nodes = countNodes(node)
@@ -191,11 +203,11 @@ func checkC12(ci interface{}, st *Stats) error {
 	} else if c12Workloads[c.Workload] == nil {
 		return Discard{"unknown workload"}
 	}
-	alone, err := runC12(c, nil)
+	alone, err := runC12(c, nil, nil)
 	if err != nil {
 		return err
 	}
-	placed, err := runC12(c, c.Pre)
+	placed, err := runC12(c, c.Pre, c.Post)
 	if err != nil {
 		return err
 	}
@@ -219,7 +231,7 @@ func checkC12(ci interface{}, st *Stats) error {
 		st.Class("call count differs with placement (recorded, not a violation)")
 	}
 	st.Class("workload " + c.Workload)
-	if alone.ParseErr == "<nil>" {
+	if strings.HasPrefix(alone.ParseErr, "<nil>") {
 		st.Class("parsed")
 	} else {
 		st.Class("rejected")
